@@ -28,6 +28,19 @@ C19_HARNESSES = [
 
 CHECKS = {
     "C19": {"harnesses": C19_HARNESSES},
+    "C08": {
+        "harnesses": [
+            H("scopes", "scope_v2", 3, 4, args=[0]),
+            H("scopes", "scope_v2", 3, 4, args=[1]),
+            H("scopes", "scope_v2_unconsumed", 3, 5, args=[0]),
+            H("scopes", "scope_v2_unconsumed", 3, 5, args=[1]),
+            H("scopes", "scope_close_race", 2, 3, args=[0]),
+            H("scopes", "scope_close_race", 2, 3, args=[1]),
+        ] + [H("scopes", "scope_v1", 3, 4, args=[a, j]) for a in (0, 1) for j in (0, 1, 2)] + [
+            H("scopes", "scope_v0", 3, 4, args=[0]),
+            H("scopes", "scope_v0", 3, 4, args=[1]),
+        ],
+    },
     "C16": {
         "harnesses": [
             H("events", "evt_v1", 3, 4),
